@@ -1283,7 +1283,12 @@ def run(ctx):
                 '— whether or not they had been cached; every conversion equals the pointwise conversion of the CURRENT points; '
                 'other grids (earlier conversion results included) and the caller\'s arrays untouched. (b) constructors: make_uniform_grid, make_focal_grid, '
                 'make_focal_grid_from_pupil_grid (origin present; weights sum), supersample/subsample round trip and cell centring, '
-                'Cartesian->polar->Cartesian, polar shift. Model: `show`/`points` compared after every op. Non-trivial = at least '
+                'Cartesian->polar->Cartesian, polar shift, make_hexagonal_grid (count, pitch, orientation, centre, weights), make_focal_grid '
+                'with every combination of its optional arguments (documented resolution, refused sets), make_pupil_grid. (c) 18 % of the '
+                'histories are identity-argument histories: scale by 1 / shift by 0 / whole turns / resampling by 1 / as_(own system) / '
+                'reversed twice in every spelling, each followed by in-place edits of the result or the original; a non-mutating form '
+                'must never return an existing object. Every polar shift is also run through the composed model (pshifted/pshift). '
+                'Model: `show`/`points` compared after every op. Non-trivial = at least '
                 'one transformation applied or a constructor clause evaluated; distinct by (family, op sequence with argument '
                 'classes, kind, ndim) or constructor parameters.')
     ctx.assumptions += ['coordinates are finite floats; inputs dyadic so that most arithmetic is exact, outputs compared at 1e-9 relative',
@@ -1291,7 +1296,7 @@ def run(ctx):
                         'automatic weights of a separated axis with fewer than two points are undefined (IndexError) — outside the quantifier',
                         'weights under rotation are not part of the statement (rotated() drops them, rotate() keeps the cached value): recorded, not judged',
                         'make_fft_grid float truncation is taken as given when the exact value is within 1e-6 of an integer and fov is inexact (boundary_skipped)']
-    n_hist = ctx.scale(1800, 8500)
+    n_hist = ctx.scale(1800, 7500)
     n_ctor = ctx.scale(1000, 5000)
     cases = list(DIRECTED)
     for k in range(n_hist):
